@@ -44,6 +44,28 @@ CHECKS = {
  "C16": ("4/C16", "", "--budget 30m",
          "Bounded model checking of user-defined functions: a decision-chain function over arbitrary int arguments and thresholds against its reference; argument expressions that mention caller variables named like the parameters; 12 uses of the result (operators, conditions, arguments, let); higher-order and recursive use; 0-4 parameters; nil arguments.",
          "Bounds: recursion depth <= 3 (concrete depth, symbolic data); fixed function bodies from the catalogue in DESIGN.md Appendix D."),
+
+ "C01": ("4/C01", "", "--budget 30m",
+         "Bounded model checking of the output sink on every plumbing route: an arbitrary NUL-free payload is moved through sources (variable, struct field, nested pointer field, string map, interface map, slice element, whole slices) x 12 expression wrappers (let, +, [], {}, index, user function, Go helper, nesting, + raw(\"\")) x 14 block routes (if/else, for variable, for return, block helper, contentFor/contentOf block and data, partial data, partial with layout, partial reading the caller's scope, user function body, let); the emitted region must contain < > ' \" & only as entities and decode to the payload (entity spelling is not prescribed). Trusted values (template.HTML, HTMLer, raw()) on 8 routes must appear verbatim exactly once; mixed output keeps the string part escaped.",
+         "Bounds quick: payload <= 2 bytes, wrapper depth 1; thorough: payload <= 4 bytes (an entity such as &lt; fits), wrapper depth 2. NUL excluded (Go's escaper maps it to U+FFFD)."),
+ "C09": ("4/C09", "", "--budget 30m",
+         "Bounded model checking of scoping against an environment-chain reference: nestings of {for, user-function call, partial with data, contentFor/contentOf with data, block helper with its own child context} with a shadowing let, a fresh let and probes at every level; all bound values are distinct arbitrary ints so 'unchanged' and 'invisible' cannot hold by coincidence; plus stored blocks / functions / block helpers used from a scope other than the defining one.",
+         "Bounds quick: nesting depth <= 2 (5 + 25 nestings x 5 outer choices); thorough: depth 3. Assignment (x = ..) to outer variables from inside a scope is not addressed by the statement and not checked; if blocks and Block() on the caller's context are not scopes."),
+ "C11": ("4/C11", "", "--budget 30m",
+         "Bounded model checking of path access: a struct/map/slice/array/pointer graph whose every leaf is its own arbitrary value; 48 paths (field, literal and variable index, map key, pointer, value and pointer methods, chained calls, method after index) compared with the same navigation written in Go; variable indexes range over all ints and variable keys over hit/miss; 19 uncompletable navigations must give an error or empty output; let / loop-iterable uses; method chains on a linked list (same method name up to 4 times).",
+         "Bounds: graph depth 2, slices of length 2; leaves are 1-byte strings over a-z or arbitrary ints."),
+ "C12": ("4/C12", "", "--budget 30m",
+         "Bounded model checking of helper argument binding with recording helpers: fixed parameters of int/string/bool/interface{}/pointer/map/slice types, auto-supplied trailing map and helper context (struct and interface typed) with and without block, variadic tails of int/string/interface{}, nil arguments, 21 rejected calls (too many / unassignable: error names the call and the helper did not run), result shapes (), (T), (T,error), (error), and evaluation order of argument expressions. Argument payloads are arbitrary.",
+         "Bounds: <= 4 arguments; too few plain arguments are only checked for totality (C04), as the statement does not specify them."),
+ "C13": ("4/C13", "", "--budget 30m",
+         "Bounded model checking of determinism and immutability: 22 programs covering every node type are rendered twice along {same parsed template, fresh parse, Clone, cache cold/warm, cache off} with equal arbitrary data and with every iteration order of the Go maps ranged over during evaluation (independently per run); outputs, errors and helper-call records must agree. The parsed program is frozen before Exec: any store into memory reachable from it is a violation. Cache key: two arbitrary texts of <= 3 bytes share a cached template only if identical.",
+         "Bounds: maps of 2-4 entries are permuted (larger ones keep insertion order); 2 executions per history (3 with the cache). A native replay cannot impose a map order: order-dependent counterexamples are replayed 25 times."),
+ "C15": ("4/C15", "", "--budget 30m",
+         "Bounded model checking of error line numbers: 16 failing statements behind 8 preamble shapes (text, tags, multi-line double- and back-quoted strings, comment tags, line comments, white space inside tags, a block) whose filler bytes are symbolic over {\\n, \\r, space, letter}: the error starts with 'line N:' and N = 1 + number of newlines before the failing tag; shifting by k newlines (optionally after a letter) adds exactly k to every line number of the error and changes nothing else; failing tags inside if/for/function/helper-block bodies.",
+         "Bounds quick: fillers <= 2 bytes, k <= 2; thorough: fillers <= 3 bytes, k <= 4. Only single-line failing tags are decided (for a statement inside a multi-line tag the statement's own line is reported and the property leaves that open)."),
+ "C18": ("4/C18", "", "--budget 30m",
+         "Bounded model checking of layout insensitivity: 12 programs as token lists covering let, assignment, if/else, for (variable and call iterables, nested), fn, hash, operators, strings, helper calls, with statements directly after closing braces; re-layouts: arbitrary white space (space, tab, LF, CR) at any token gap incl. before %>, # line comments (LF and CRLF) with arbitrary bodies at any gap, every way of cutting the statement sequence into tags (space, newline, semicolon, tag split), <%# %> comment tags between tags; each must render exactly what the canonical layout renders.",
+         "Bounds quick: one varying gap, separators <= 1 byte, comment bodies <= 1 byte; thorough: two gaps, <= 2 bytes. Known finding (not repaired, see known_findings.json): comment-tag bodies containing a quote, back quote or #."),
 }
 
 PENDING = "check not built yet in this session (build in progress, see DESIGN.md section 8)"
